@@ -5,6 +5,10 @@ ROOT = os.path.dirname(os.path.dirname(os.path.abspath(__file__)))
 
 # id -> (technique, level text, level note, design ref)
 CHECKS = {
+ "C05": ("model-based differential: generated component definitions and call sites against a reference binder (declared ∪ defaults, rest map, unknown/missing/type errors, inferred types) and the reference interpreter on a fresh scope, with observation points over the caller's whole name pool inside every component body (isolation); render_component through the API against the same binder; enumeration of fallback-prefix priority configurations; crash-isolated recursion shapes on an 8 MiB stack",
+         "Exploration: 240k generated sets (quick; x20 thorough) of 1-4 components over three files, called inline / with body / in loops / in captures / from an included template / from other components, with named, shorthand and spread attributes (literals of every kind, caller variables, right and wrong types, missing and extra); 1.7M render_component comparisons; 30k priority configurations; 70 recursion cases (direct, mutual, through includes, through bodies, in loops and captures; depth 0..100000 and unbounded).",
+         "Trusted base: the reference binder bind_component and interpreter in harness/src/stmt.rs. Not specified and therefore discarded: undefined attribute values, explicit `body` attributes, spreads with non-string keys; duplicates at a shadowed priority are accepted or rejected by the engine depending on template-name order (not claimed either way).",
+         "DESIGN.md section 4 C05"),
  "C04": ("model-based differential: generated inheritance chains (block trees, overrides, nested fresh blocks, super() in several positions, skipped levels) rendered from every template of the chain and block by block, against a reference resolver written from the definition; registration in a random permutation (one batch) and parents-first one by one must behave the same",
          "Exploration: 24k generated chains of 1..7 templates (quick; x25 thorough, up to 13) with up to 10 blocks placed nested, inside filter sections, captured set blocks and component-call bodies; every template of the chain is an entry point for render and render_block of every known block (~170k render_block comparisons per quick run); bodies carry unique markers, assignments and observation points.",
          "Trusted base: the reference resolver in harness/src/stmt.rs (lineage = definitions most-derived first; super() = next definition). Nested blocks introduced by overrides always get fresh names (no cyclic nesting via super(), finding F9); blocks executed more than once in a render are not judged by render_block.",
